@@ -368,7 +368,10 @@ pub extern "sysv64" fn memory_read_word(areas: *mut MemoryAreas, addr: u16) -> u
 }
 
 pub fn can_dynarec(addr: usize) -> bool {
-  addr < 0x8000
+  // An instruction starting in the last two bytes of a ROM region may have its
+  // operands in the next region, which can be banked differently (or not be
+  // ROM at all). Those are left to the interpreter.
+  addr < 0x8000 && (addr & 0x3fff) < 0x3ffe
 }
 
 #[cfg(gb_dynarec_verif)]
